@@ -221,7 +221,8 @@ def gen_cases(ctx):
                           "rel": r.choice(["translation_part", "translation_part", "rotation_angle_deg", "full_transformation"]),
                           "align": r.random() < 0.15,
                           "est_name": r.choice([f"est{i}", f"runs/{i}/est.txt", f"d{i}/traj.tum", f"{i}.tum", "same/est.txt", "estimate", "b.tum", "1e3", "-1", "est \u00fc\u4e2d", " trailing ", "dir/", "a\\b"]),
-                          "file": r.choice([f"r{i}.zip", f"sub{i}/res.zip"])})
+                          "file": r.choice([f"r{i}.zip", f"sub{i}/res.zip", f"r{i}.zip", f"MH[0{i}]_ape.zip", f"run{i} (1).zip", f"a{i}*b.zip",
+                                            f"q{i}?.zip", f"{i}[x].zip", f"resü{i}.zip", f"-{i}.zip" if False else f"r_{i}.zip"])})
         if r.random() < 0.12:
             files.append(dict(r.choice(files)))        # the same file named twice on the command line
         yield {"kind": "table", "files": files, "merge": r.random() < 0.4, "use_filenames": r.random() < 0.35,
